@@ -210,11 +210,14 @@ def script_token(script):
 class Case:
     """one client + a sequence of calls"""
 
-    def __init__(self, prefix, dtags, dcid, script, calls):
+    def __init__(self, prefix, dtags, dcid, script, calls, from_sink=False):
         self.prefix, self.dtags, self.dcid, self.script, self.calls = prefix, dtags, dcid, script, calls
+        # from_sink: the client is constructed with StatsdClient::from_sink instead of the builder (possible when
+        # there are no defaults and no quiet form, which needs the handler, is used)
+        self.from_sink = from_sink and not dtags and dcid is None and all(c[0] != "Q" for c in calls)
 
     def line(self, ft=None):
-        t = ["X", hx(self.prefix), dtags_token(self.dtags), "~" if self.dcid is None else hx(self.dcid),
+        t = ["Y" if self.from_sink else "X", hx(self.prefix), dtags_token(self.dtags), "~" if self.dcid is None else hx(self.dcid),
              script_token(self.script), str(len(self.calls))]
         for (form, kind, ty, v, key, ops) in self.calls:
             t += [form, kind, arg_token(ty, v, ft), hx(key), ops_token(ops, ft)]
@@ -431,6 +434,9 @@ def gen_exhaustive(rng):
             if ty in ("vu64", "vf64", "vdur") and not v:
                 v = [rand_val(rng, ty[1:])]
             out.append(Case("pre.", dt, dc, [], [("P", kind, ty, v, "key", [])]))
+            if not defaults:
+                out.append(Case("pre.", dt, dc, [], [("P", kind, ty, v, "key", [])], from_sink=True))
+                out.append(Case("pre.", dt, dc, [], [("T", kind, ty, v, "key", rand_ops(rng, "clean", (True, True, True, True)))], from_sink=True))
             for form in ("T", "Q"):
                 for combo in itertools.product([False, True], repeat=4):
                     out.append(Case("pre.", dt, dc, [], [(form, kind, ty, v, "key", rand_ops(rng, "clean", combo))]))
@@ -485,7 +491,7 @@ def gen_random(rng, n, mode):
             calls.append((form, kind, ty, mk_value(rng, ty), rand_str(rng, mode, 1 if mode == "clean" else 0), ops))
         for _ in range(rng.randint(0, ncalls)):
             script.append(None if rng.random() < 0.5 else (rng.randint(0, 11), rng.randint(1, 99)))
-        out.append(Case(rand_prefix(rng, mode), dt, dc, script, calls))
+        out.append(Case(rand_prefix(rng, mode), dt, dc, script, calls, from_sink=rng.random() < 0.5))
     return out
 
 
